@@ -7,6 +7,8 @@
 From Coq Require Import List ZArith Bool Reals.
 From GMGP Require Import Scalar ScalarR InterpDefs InterpProofs InterpProofs2.
 Import ListNotations.
+From GMGP Require Import StencilTie InterpTie.
+From GMGPGen Require Import StencilGen.
 Local Open Scope R_scope.
 
 Theorem C08_R_is_P_transpose : forall nr nth h k M Mc,
@@ -49,6 +51,16 @@ Theorem C08_P_linear_refuted :
   exists (rad : Z -> R), (forall i, (rad i < rad (i + 1)%Z)%R) /\
     @apply_row1 Rsc (@Pr_row Rsc (fun i => (rad (i + 1)%Z - rad i)%R) 1) (fun ic => rad (2 * ic)%Z) <> rad 1%Z.
 Proof. exact P_linear_refuted. Qed.
+
+(* ---- the optimised prolongation as translator T3 regenerates it from the macro FINE_NODE_PROLONGATION: for every fine node exactly
+   one write, result[(i,j)] := (row (i,j) of the model P) . x -- so the theorems above (R = P^T, convexity, P = P0, linear exactness)
+   are statements about what src/Interpolation/prolongation.cpp says now (even ntheta, positive spacings). ---- *)
+Theorem C08_generated_prolongation_is_model :
+  forall (nr nth : Z) (h k : Z -> R), (2 <= nth)%Z -> Z.even nth = true -> (forall x, 0 < h x)%R -> (forall x, 0 < k x)%R ->
+  forall (x : Z -> Z -> R) (i j : Z), (0 <= i < nr)%Z -> (0 <= j < nth)%Z ->
+  @gen_prolongation Rsc nth (Z.quot nth 2) h k x i j =
+  [ (((i, j), W_result_WAssign), @apply_row2 Rsc (@P_row Rsc nth h k i j) x) ].
+Proof. exact gen_prolongation_is_model. Qed.
 
 Print Assumptions C08_R_is_P_transpose.
 Print Assumptions C08_Rex_is_Pex_transpose.
